@@ -607,7 +607,11 @@ class SQLDataStore(datastore.DataStore):
 
       # Now, we update one Trial at a time:
       for trial_id, md_list in split_metadata.items():
-        t_resource = s_resource.trial_resource(trial_id)
+        try:
+          t_resource = s_resource.trial_resource(trial_id)
+        except ValueError as e:
+          self._connection.rollback()
+          raise NotFoundError('No such trial:', trial_id) from e
         trial_name = t_resource.name
 
         # Obtain original trial.
